@@ -1,7 +1,13 @@
 import Pixman.Props.C09Flags
 import Pixman.Props.C08
 /-! C09, (O3) end to end: what the reference fetchers of `Model/Fetch` RETURN for an image that
-`pixman_image_composite32` treats as opaque. -/
+`pixman_image_composite32` treats as opaque.
+
+Where the cover flags are used (`opaque_values`, via C04 `cover_nearest_sound` / `cover_bilinear_sound` on the literal
+`Extent.analyzeExtent`): that model is tied to the source by the REGENERATED `analyze_extent` and the bridge
+`Pixman.Props.BridgesExtent.analyze_extent_eq` (a C09 obligation), as `ImageState.computeImageInfo` is by
+`Pixman.Props.BridgesImage.compute_image_info_eq`.  The BILINEAR → NEAREST reduction is closed in `Props/C09Reduction`
+(`source_opaque_sound`, `mask_opaque_sound`: no proviso left). -/
 namespace Pixman.Props.C09Sound
 open Pixman.Model Pixman.Model.Opacity Pixman.Model.ImageState Pixman.Gen.ImageFlags Pixman.Lemmas.OpacityFlags
 open Pixman.Model.Extent Pixman.Model.Fetch Pixman.Lemmas.FetchBilinear Pixman.Matrix Pixman.Sample
